@@ -52,6 +52,7 @@ type Obligation struct {
 	Inputs []ModelInput
 	Region string // extra assumption (known-finding handling)
 	KF     *KnownFinding
+	Replay *ReplaySpec
 }
 
 type ModelInput struct {
